@@ -40,8 +40,12 @@ KEYS = [('ns', 'o1', 'u1'), ('ns', 'o2', 'u2')]
 IKEYS = ['k1', 'k2']
 
 
+def _key(x):
+    return (x is None, 0 if x is None else x)       # (repr() of symbolic numbers is opaque: order by value)
+
+
 def snapshot(index):
-    return {k: sorted(list(index[k]), key=repr) for k in index}
+    return {k: sorted(list(index[k]), key=_key) for k in index}
 
 
 def ref_snapshot(ref):
@@ -50,7 +54,7 @@ def ref_snapshot(ref):
     for acc, mapping in ref.items():
         for ik, v in mapping.items():
             out.setdefault(ik, []).append(v)
-    return {k: sorted(v, key=repr) for k, v in out.items()}
+    return {k: sorted(v, key=_key) for k, v in out.items()}
 
 
 def _mapping(shape, v1, v2):
@@ -165,6 +169,8 @@ def h_index_rules(n: int, o0: bool, o1: bool, o2: bool, del0: bool, del1: bool, 
     c = vkopf.cell()
     n = c.get('n', n)
     k0, k1 = vkopf.pin('k0', k0), vkopf.pin('k1', k1)
+    o0, m0, o1, del0 = vkopf.pin('o0', o0), vkopf.pin('m0', m0), vkopf.pin('o1', o1), vkopf.pin('del0', del0)
+    v0, v1, v2 = vkopf.choose(v0, [5, 6]), vkopf.choose(v1, [5, 7]), vkopf.choose(v2, [6, 8])
     mode = {'ignored': kopf.ErrorsMode.IGNORED, 'temporary': kopf.ErrorsMode.TEMPORARY,
             'permanent': kopf.ErrorsMode.PERMANENT}[c.get('errors', 'ignored')]
     script = list(zip([o0, o1, o2], [del0, del1, del2], [m0, m1, m2], [k0, k1, k2],
@@ -214,10 +220,17 @@ def h_index_rules(n: int, o0: bool, o1: bool, o2: bool, del0: bool, del1: bool, 
 
 
 def obligations():
-    obs = split(Ob('h_index_ops', {}, timeout=900, twins=['two_objects']), n=[1, 2, 3])
+    obs = split(Ob('h_index_ops', {}, timeout=900, twins=['two_objects']), n=[1, 2])
+    for (s0, s1) in ((3, 1), (1, 4), (3, 3), (2, 0)):
+        obs.append(Ob('h_index_ops', {'pin': {'n': 3, 's0': s0, 's1': s1}}, tiers=('quick',), timeout=900))
+    obs += split(Ob('h_index_ops', {}, timeout=1500, tiers=('thorough',)), n=[3], s0=[0, 1, 2, 3, 4], s1=[0, 1, 2, 3, 4])
     obs += split(Ob('h_index_ops', {}, timeout=3000, tiers=('thorough',)), n=[4], s0=[0, 1, 2, 3, 4], s1=[0, 1, 2, 3, 4])
-    obs += split(Ob('h_index_rules', {'n': 2, 'errors': 'ignored'}, timeout=900, twins=['error_removed']), k0=list(range(7)))
-    for mode in ('temporary', 'permanent'):
-        obs += split(Ob('h_index_rules', {'n': 2, 'errors': mode}, timeout=900, tiers=('thorough',)), k0=list(range(7)))
-    obs += split(Ob('h_index_rules', {'n': 3, 'errors': 'ignored'}, timeout=3000, tiers=('thorough',)), k0=list(range(7)), k1=list(range(7)))
+    for (k0, k1, o1) in ((0, 3, True), (6, 4, False), (0, 5, True), (1, 2, True), (3, 0, False), (4, 6, True)):
+        obs.append(Ob('h_index_rules', {'n': 2, 'errors': 'ignored', 'pin': {'k0': k0, 'k1': k1, 'o0': False, 'm0': True, 'o1': o1, 'del0': False}},
+                      tiers=('quick',), timeout=900))
+    obs.append(Ob('h_index_rules', {'n': 2, 'errors': 'ignored'}, tiers=('quick', 'thorough'), timeout=300, twins=['error_removed'], main=False))
+    for mode in ('ignored', 'temporary', 'permanent'):
+        obs += split(Ob('h_index_rules', {'n': 2, 'errors': mode}, timeout=1500, tiers=('thorough',)), k0=list(range(7)), k1=list(range(7)))
+    obs += split(Ob('h_index_rules', {'n': 3, 'errors': 'ignored'}, timeout=3000, tiers=('thorough',)), k0=list(range(7)), k1=list(range(7)),
+                 o0=[False, True], m0=[False, True])
     return obs
